@@ -64,7 +64,7 @@ func (t *tr) mutatorStmt(c *ast.CallExpr, rest cont) (string, bool) {
 	}
 	id, ok := sel.X.(*ast.Ident)
 	if !ok {
-		return "", false
+		return t.fieldMutatorStmt(c, sel, rest) // (C19) `x.F.M(a)`; translate_c19op.go
 	}
 	full := exprString(c.Fun)
 	for _, m := range t.spec.Mutators {
